@@ -136,6 +136,21 @@ class Heartbeat(Process):
         return {}
 
 
+class LegacyDer(Process):
+    """a deriver of the old kind: a Process that says is_deriver(); listed
+    under processes"""
+
+    def is_deriver(self):
+        return True
+
+    def ports_schema(self):
+        return {'s': {'x': {'_default': 0},
+                      'v': {'_default': 0, '_updater': 'set', '_emit': True}}}
+
+    def next_update(self, timestep, states):
+        return {'s': {'v': states['s']['x'] * 2}}
+
+
 class Copy(Step):
     def ports_schema(self):
         return {'s': {'x': {'_default': 0},
@@ -241,6 +256,8 @@ def run_once(ctx, cfg, flags, ivs, tag):
     if cfg.get('heartbeat'):
         extra_p['hb'] = Heartbeat({'_parallel': flags['q']})
         extra_t['hb'] = {}
+        extra_p['ld'] = LegacyDer({'_parallel': flags['q']})
+        extra_t['ld'] = {'s': ('qs',)}
     out = dict(rows=None, final=None, paths=None, error=None, workers=None)
     e = None
     try:
